@@ -95,6 +95,9 @@ pub(crate) struct Lexer<'a, R> {
     pub(crate) reader: R,
     pub(crate) machine_st: &'a mut MachineState,
     pub(crate) location: Location,
+    // the last call of next_token met the end of the input before the
+    // first character of a token: nothing but layout text was left.
+    pub(crate) eof_before_token: bool,
 }
 
 impl<'a, R: fmt::Debug> fmt::Debug for Lexer<'a, R> {
@@ -133,6 +136,7 @@ impl<'a, R: CharRead> Lexer<'a, R> {
             reader: src,
             machine_st,
             location: Location::BOF,
+            eof_before_token: false,
         }
     }
 
@@ -995,7 +999,16 @@ impl<'a, R: CharRead> Lexer<'a, R> {
     }
 
     pub fn next_token(&mut self) -> Result<Token, ParserError> {
-        let layout_inserted = self.scan_for_layout()?;
+        self.eof_before_token = false;
+
+        let layout_inserted = match self.scan_for_layout() {
+            Err(e) => {
+                self.eof_before_token = e.is_unexpected_eof();
+                return Err(e);
+            }
+            Ok(layout_inserted) => layout_inserted,
+        };
+
         let cr = self.lookahead_char();
 
         match cr {
@@ -1090,7 +1103,10 @@ impl<'a, R: CharRead> Lexer<'a, R> {
 
                 self.name_token(c)
             }
-            Err(e) => Err(e),
+            Err(e) => {
+                self.eof_before_token = e.is_unexpected_eof();
+                Err(e)
+            }
         }
     }
 
